@@ -217,6 +217,7 @@ void led_case_begin(void)
 static void release_block(lent *e)
 {
     if (e->origin == ORG_ARENA) return;       /* bump arena, reset per case */
+    e->state = 0;                             /* memory handed back: nothing of ours to look at any more */
     __real_free(e->p);
 }
 
@@ -621,6 +622,25 @@ static volatile int mon_dying;
 
 static void sig_write(const char *s) { ssize_t r = write(fileno(cjv_log), s, strlen(s)); (void)r; }
 
+/* the C library's own heap checks aborted while the driver was releasing memory: if a block the
+ * library wrote beyond is on record (damaged tail canary), the corruption is the library's doing */
+static long led_damaged_canary(size_t *size_out)
+{
+#if CJV_PLAIN
+    uint32_t i;
+    for (i = 0; i < LED_CAP; i++) {
+        const lent *e = &ltab[i];
+        uint64_t t;
+        if (e->gen != lgen || e->state == 0 || e->efence || e->p == NULL) continue;
+        memcpy(&t, (const unsigned char *)e->p + e->size, 8);
+        if (t != TAILMAGIC) { if (size_out) *size_out = e->size; return (long)e->serial; }
+    }
+#else
+    (void)size_out;
+#endif
+    return -1;
+}
+
 static void on_fatal_signal(int sig, siginfo_t *si, void *uc_)
 {
     char line[512], cls[160];
@@ -642,6 +662,16 @@ static void on_fatal_signal(int sig, siginfo_t *si, void *uc_)
                  cjv_case_id, cjv_op_idx, cjv_cur_call ? cjv_cur_call : "-", sig, addr, cjv_case_id, cjv_op_idx);
         sig_write(line);
         _exit(3);
+    }
+    if (!was_in_lib && sig == SIGABRT) {
+        size_t bsz = 0;
+        long ser = led_damaged_canary(&bsz);
+        if (ser >= 0) {
+            snprintf(line, sizeof line, "V %ld %ld ledger/tail-canary call=%s block serial=%ld size=%zu: bytes behind the block were overwritten (noticed when the C library's heap checks aborted)\nX %ld %ld died\n",
+                     cjv_case_id, cjv_op_idx, cjv_cur_call ? cjv_cur_call : "-", ser, bsz, cjv_case_id, cjv_op_idx);
+            sig_write(line);
+            _exit(3);
+        }
     }
     if (!was_in_lib && sig != SIGALRM) {
         /* the driver itself crashed: harness failure, never a verdict about the library */
